@@ -1116,3 +1116,43 @@ def nested2(tier):
                 continue
             out.setdefault(prop, []).append(T("m2_%s_of_%s" % (oname, iname), ob(ib), rows))
     return out
+
+
+def nested3(tier):
+    """outer x inner over String mono-measure datasets (DS_S, DS_S2): string operators, type-changing operators (length, comparison) and clauses
+    over string-valued sub-queries"""
+    inner = [
+        ("concat", lambda: binop("||", "DS_S", "DS_S2")),
+        ("concat_sc", lambda: binop("||", "DS_S", const("x"))),
+        ("upper", lambda: unop("upper", "DS_S")),
+        ("union", lambda: setop("union", ["DS_S", "DS_S2"])),
+        ("filter", lambda: filter_("DS_S", binop("=", "Me_1", const("a")))),
+        ("calc", lambda: calc("DS_S", [(None, "Me_1", binop("||", "Me_1", const("z")))])),
+        ("nvl", lambda: binop("nvl", "DS_S", const("n"))),
+        ("substr", lambda: paramop("substr", ["DS_S"], [1, 2])),
+        ("max_by", lambda: agg("max", "DS_S", "group by", ["Id_1"])),
+    ]
+    outer = [
+        ("c01", "concat_ds", lambda e: binop("||", e(), "DS_S2"), 2),
+        ("c01", "sc_concat", lambda e: binop("||", const("p"), e()), 2),
+        ("c01", "lower", lambda e: unop("lower", e()), 2),
+        ("c01", "length", lambda e: unop("length", e()), 2),
+        ("c01", "eq_sc", lambda e: binop("=", e(), const("a")), 2),
+        ("c01", "lt_ds", lambda e: binop("<", e(), "DS_S2"), 2),
+        ("c01", "in_set", lambda e: in_(e(), ["a", "bb"]), 2),
+        ("c01", "isnull", lambda e: unop("isnull", e()), 2),
+        ("c01", "substr", lambda e: paramop("substr", [e()], [2, 1]), 2),
+        ("c02", "filter", lambda e: filter_(e(), binop("<>", "Me_1", const("b"))), 2),
+        ("c02", "calc_len", lambda e: calc(e(), [(None, "Me_9", unop("length", "Me_1"))]), 2),
+        ("c02", "rename", lambda e: rename(e(), [("Me_1", "Me_7")]), 2),
+        ("c03", "max_by", lambda e: agg("max", e(), "group by", ["Id_1"]), 3),
+        ("c03", "count_by", lambda e: agg("count", e(), "group by", ["Id_1"]), 3),
+        ("c05", "union", lambda e: setop("union", [e(), "DS_S2"]), 2),
+        ("c05", "setdiff", lambda e: setop("setdiff", [e(), "DS_S2"]), 2),
+        ("c06", "an_min", lambda e: analytic("min", e(), partition_by=["Id_1"]), 3),
+    ]
+    out = {}
+    for prop, oname, ob, rows in outer:
+        for iname, ib in inner:
+            out.setdefault(prop, []).append(T("s1_%s_of_%s" % (oname, iname), ob(ib), rows))
+    return out
